@@ -111,6 +111,28 @@ def job(args):
                                         {"setting": si, "labels": labels, "shape": shape, "to": tb, "via": mid})
     if kb_list != [U.KCAL_BASES[0]] or kform_list != [U.FORMS[0]]:
         return {"n": n, "v": vs, "outs": len(outs)}
+    # unusual but legal magnitudes: quantities far below one unit, and quantities whose calories are zero while fat and protein are
+    # not, under every setting of the fat/protein inclusion flags (a conversion must scale every number whatever is "counted")
+    src_b0 = ("billion kcals", "thousand tons", "thousand tons")
+    for inc_f, inc_p in itertools.product((True, False), repeat=2):
+        Food.conversions.set_nutrition_requirements(kcals_daily=kd, fat_daily=fd, protein_daily=pd, include_fat=inc_f, include_protein=inc_p, population=pop)
+        for label, triple in (("tiny", (4e-10, 3e-10, 2e-10)), ("zero calories", (0.0, 1.5, 10.0)), ("zero calories, series", None)):
+            if triple is None:
+                q = Food(np.zeros(3), np.array([1.5, 2.0, 2.5]), np.array([10.0, 20.0, 30.0]), *[b + " each month" for b in src_b0])
+                before = vals_of(q)
+            else:
+                q = Food(triple[0], triple[1], triple[2], *src_b0)
+                before = vals_of(q)
+            for tb in targets:
+                n += 1
+                rp = {"setting": si, "magnitude": label, "flags": [inc_f, inc_p], "to": tb}
+                out = q.in_units(*tb)
+                f = U.factors(src_b0, tb, pop, kd, fd, pd)
+                for g, b, fac, nm in zip(vals_of(out), before, f, ("kcals", "fat", "protein")):
+                    if not np.allclose(g, b * fac, rtol=1e-9, atol=0):
+                        bad("factor_" + nm, "%s quantity %s (include_fat=%s include_protein=%s) -> %s: %s %r, the unit names mean %r" % (
+                            label, [x.tolist() for x in before], inc_f, inc_p, tb, nm, g.tolist(), (b * fac).tolist()), rp)
+    Food.conversions.set_nutrition_requirements(kcals_daily=kd, fat_daily=fd, protein_daily=pd, include_fat=True, include_protein=True, population=pop)
     # quantities that reach a form through an operation rather than the constructor: the total (sum / minimum / maximum over months)
     # and the single month of a series must convert exactly like the same quantity written down directly
     src_b = ("billion kcals", "thousand tons", "thousand tons")
@@ -242,6 +264,9 @@ def replay(rp):
             if k == len(hist) - 1:
                 vs = v
         return vs
+    if "magnitude" in rp:
+        r = job((rp["setting"], [U.FORMS[0]], [U.KCAL_BASES[0]]))
+        return [v for v in r["v"] if v["replay"].get("magnitude") == rp["magnitude"]] or r["v"]
     if "derived" in rp:
         r = job((rp["setting"], [U.FORMS[0]], [U.KCAL_BASES[0]]))
         return [v for v in r["v"] if v["replay"].get("derived") == rp["derived"]] or r["v"]
